@@ -129,6 +129,18 @@ func runSss(r *prng.R, s *out.Sink, tier string) {
 							s.Violate("C18", fmt.Sprintf("%s: shares %v of a threshold-%d sharing reconstruct %s, dealt secret %s", im.name, S, t, res, coeffs[0]),
 								fmt.Sprintf("sss reconstruct %s %s %s", p, strings.Join(shs, ","), ints(S)))
 						}
+						// the same set listed in another order (signers are listed in arrival order by a caller of the public
+						// API): a set of evaluation points has no order
+						if len(S) >= 2 && r.Intn(2) == 0 {
+							P := shuffled(r, S)
+							passed := append([]int64(nil), P...)
+							res := safely(func() string { return zrDec(im.reconstr(shares, passed...)) })
+							s.Op(im.name+"/reconstruct-shuffled", !sorted(P), fmt.Sprintf("sss reconstruct %s %s %s", p, strings.Join(shs, ","), ints(P)), res)
+							if len(P) >= t && res != coeffs[0] {
+								s.Violate("C18", fmt.Sprintf("%s: shares at points %v (in this order) of a threshold-%d sharing reconstruct %s, dealt secret %s", im.name, P, t, res, coeffs[0]),
+									fmt.Sprintf("sss reconstruct %s %s %s", p, strings.Join(shs, ","), ints(P)))
+							}
+						}
 					}
 				}
 			}
@@ -205,6 +217,16 @@ func runSss(r *prng.R, s *out.Sink, tier string) {
 				if !got.Equals(want) {
 					s.Violate("C18", fmt.Sprintf("public keys of shares %v (n=%d,t=%d) do not aggregate to the key of the secret", S, n, t), ints(S))
 				}
+				// the same set in another order, and the signatures of its members aggregated in that order
+				P := shuffled(r, S)
+				s.Count("group/aggregate-shuffled")
+				s.N++
+				if !sorted(P) {
+					s.Distinct[fmt.Sprintf("shuffled n=%d t=%d %v", n, t, P)] = struct{}{}
+				}
+				if got := bls.VerifLocalAggregatePublicKeys(pks, append([]int64(nil), P...)...); !got.Equals(want) {
+					s.Violate("C18", fmt.Sprintf("public keys of shares %v (in this order; n=%d,t=%d) do not aggregate to the key of the secret", P, n, t), ints(P))
+				}
 			}
 			if d := distinctKeys(pks); d != 1 {
 				s.Violate("C18", fmt.Sprintf("keys on one polynomial (n=%d,t=%d) rejected by the cross-check: %d distinct aggregates", n, t, d), "")
@@ -226,4 +248,22 @@ func runSss(r *prng.R, s *out.Sink, tier string) {
 			}
 		}
 	}
+}
+
+func shuffled(r *prng.R, S []int64) []int64 {
+	P := append([]int64(nil), S...)
+	for i := len(P) - 1; i > 0; i-- {
+		j := r.Intn(i + 1)
+		P[i], P[j] = P[j], P[i]
+	}
+	return P
+}
+
+func sorted(S []int64) bool {
+	for i := 1; i < len(S); i++ {
+		if S[i-1] > S[i] {
+			return false
+		}
+	}
+	return true
 }
